@@ -123,6 +123,15 @@ def step (s : State) : Op → Except Err State
     | some (w, rest) => .ok { s with granted := rest, holders := s.holders ++ [(w, i)] }
     | none => .error .protocol
 
+/-- `_AcquireManager(ws, n)`: the context manager returned by `acquire_manager(n)` is a VALUE — the semaphore and a weight,
+no state of its own.  `__aenter__` = `acquire(n)`, `__aexit__` = `release(n)`, every time it is entered, by whichever task. -/
+structure Manager where
+  n : Nat
+  deriving DecidableEq, Repr
+
+/-- task `i` enters manager `m` -/
+def Manager.enter (m : Manager) (i : Nat) : Op := .acquire i m.n
+
 /-- run a list of atomic blocks; stops at the first error -/
 def run : State → List Op → Except Err State
   | s, [] => .ok s
